@@ -115,6 +115,10 @@ impl AsyncFileSystem for AsyncOverlayFS {
                 }
             }
         }
+        // the bookkeeping folder is not part of the overlay's own namespace
+        if path.is_empty() {
+            entries.remove(".whiteout");
+        }
         Ok(Box::new(futures::stream::iter(entries)))
     }
 
